@@ -1,5 +1,5 @@
-CONSTANTS W = 4  R = 2  IBExtra = 1  MaxLen = 5
-  TextLens = {4, 8}  Indices = {0,1,2,3,4,5,6,8,9}  AllowF3 = FALSE
+CONSTANTS W = 4  R = 2  IBExtra = 1  MaxLen = 4
+  TextLens = {4, 7, 8}  Indices = {0,1,2,3,4,5,8,9}  AllowF3 = FALSE
 SPECIFICATION Spec
 INVARIANTS CursorOk TabOk NoPanic ListFormOk VariantOk EndFormsOk
 PROPERTY Refinement
